@@ -6,11 +6,13 @@
 (* observed and the program is printed as a case in both syntaxes.           *)
 EXTENDS Eval, Render, Json
 
-CONSTANTS MaxLen, MaxDepth, Profile, Fuel,
+CONSTANTS MaxLen, MaxDepth, Profile, Fuel, WithImport,
           Steer      \* BOOLEAN: only read names that were introduced somewhere earlier
 
-VARIABLES prog, open, lastClosed, done, declared
-vars == <<prog, open, lastClosed, done, declared>>
+VARIABLES prog, open, lastClosed, done, declared,
+          split,     \* instructions 1..split live in an imported file (0: single file)
+          implast    \* TRUE: the entry file imports it at its END (so the library runs last)
+vars == <<prog, open, lastClosed, done, declared, split, implast>>
 
 Range(s) == {s[i] : i \in 1..Len(s)}
 
@@ -59,6 +61,11 @@ SimpleMenuOf(pf) ==
           Return(V("x")), Debug(Call("f", <<>>, <<>>))}
     [] pf = "closure" ->
          {Decl("x", I(1), FALSE, FALSE), Decl("x", I(2), FALSE, FALSE), Debug(V("x")), Include("m", <<>>, <<>>)}
+    [] pf = "diag" ->
+         {Decl("x", I(1), FALSE, FALSE), Debug(V("x")), Debug(V("i")), Warn(V("i")), Warn(VStr("w")), Warn(VQStr("q s")),
+          Debug(VQStr("d")), Warn(ListX(<<I(1), VStr("a")>>, "comma")),
+          ErrorI(V("i")), ErrorI(VQStr("boom")), ErrorI(ListX(<<I(1), I(2)>>, "space")), ErrorI(VStr("e")),
+          Include("m", <<>>, <<>>), Debug(Call("f", <<>>, <<>>)), Return(I(5)), Prop("p", V("x"))}
     [] pf = "scope2" ->
          {Decl("x", I(1), FALSE, FALSE), Decl("y", V("x"), FALSE, FALSE), Decl("x", Bin("+", V("x"), I(1)), FALSE, FALSE),
           Decl("y", I(5), TRUE, FALSE), Decl("y", I(6), FALSE, TRUE),
@@ -99,6 +106,8 @@ BlockMenuOf(pf) ==
   CASE pf = "scope" ->
          {Rule(".r"), If(T), Mixin("m", <<>>, ""), Function("f", <<>>, ""), IncludeB("m", <<>>, <<>>, <<>>)}
     [] pf = "closure" -> {Rule(".r"), Mixin("m", <<>>, ""), If(T)}
+    [] pf = "diag" -> {Rule(".r"), Mixin("m", <<>>, ""), Function("f", <<>>, ""), For("i", I(1), I(3), TRUE),
+                       Each(<<"i">>, ListX(<<VStr("u"), VStr("u"), VStr("v")>>, "space"))}
     [] pf = "scope2" ->
          {Rule(".r"), If(T), If(Bin("==", V("x"), I(1))), Mixin("m", <<>>, ""), IncludeB("m", <<>>, <<>>, <<>>),
           Each(<<"x">>, ListX(<<I(7), I(8)>>, "space"))}
@@ -119,7 +128,7 @@ BlockMenuOf(pf) ==
          {Rule(".r"), If(Flat(<<V("x"), I(2), V("y"), I(9)>>, <<"==", "and", "==">>)), While(F)}
     [] OTHER -> {}
 
-Profiles == {"scope", "scope2", "closure", "control", "args", "ops"}
+Profiles == {"scope", "scope2", "closure", "control", "args", "ops", "diag"}
 SimpleMenu == IF Profile = "full" THEN UNION {SimpleMenuOf(q) : q \in Profiles} ELSE SimpleMenuOf(Profile)
 BlockMenu == IF Profile = "full" THEN UNION {BlockMenuOf(q) : q \in Profiles} ELSE BlockMenuOf(Profile)
 
@@ -202,26 +211,33 @@ Prelude ==
 RECURSIVE IntroAll(_, _)
 IntroAll(p, i) == IF i > Len(p) THEN {} ELSE Intro(p[i]) \cup IntroAll(p, i + 1)
 
-Init == prog = Prelude /\ open = <<>> /\ lastClosed = "" /\ done = FALSE /\ declared = IntroAll(Prelude, 1)
+Init == prog = Prelude /\ open = <<>> /\ lastClosed = "" /\ done = FALSE /\ declared = IntroAll(Prelude, 1) /\ split = 0 /\ implast = FALSE
 
 AppendSimple(ins) ==
   /\ ~done /\ Len(prog) - Len(Prelude) < MaxLen /\ Allowed(ins)
-  /\ prog' = Append(prog, ins) /\ lastClosed' = "" /\ declared' = declared \cup Intro(ins) /\ UNCHANGED <<open, done>>
+  /\ prog' = Append(prog, ins) /\ lastClosed' = "" /\ declared' = declared \cup Intro(ins) /\ UNCHANGED <<open, done, split, implast>>
 
 OpenBlock(ins) ==
   /\ ~done /\ Len(prog) - Len(Prelude) + 2 <= MaxLen /\ Len(open) < MaxDepth /\ Allowed(ins)
   /\ prog' = Append(prog, ins) /\ open' = Append(open, ins.op) /\ lastClosed' = ""
-  /\ declared' = declared \cup Intro(ins) /\ UNCHANGED done
+  /\ declared' = declared \cup Intro(ins) /\ UNCHANGED <<done, split, implast>>
 
 CloseBlock ==
   /\ ~done /\ open # <<>>
   /\ prog' = Append(prog, End)
   /\ lastClosed' = (IF open[Len(open)] \in {"if", "elseif"} THEN "if" ELSE "")
-  /\ open' = SubSeq(open, 1, Len(open) - 1) /\ UNCHANGED <<done, declared>>
+  /\ open' = SubSeq(open, 1, Len(open) - 1) /\ UNCHANGED <<done, declared, split, implast>>
 
-Finish == /\ ~done /\ open = <<>> /\ Len(prog) > Len(Prelude) /\ done' = TRUE /\ UNCHANGED <<prog, open, lastClosed, declared>>
+Finish == /\ ~done /\ open = <<>> /\ Len(prog) > Len(Prelude) /\ done' = TRUE /\ UNCHANGED <<prog, open, lastClosed, declared, split, implast>>
 
-Next == \/ \E ins \in SimpleMenu : AppendSimple(ins)
+\* everything written so far becomes the imported file _lib.scss; the entry file starts with @import "lib"
+SplitHere == /\ WithImport /\ ~done /\ split = 0 /\ open = <<>> /\ Len(prog) > 0 /\ Len(prog) < MaxLen
+             /\ split' = Len(prog) /\ lastClosed' = "" /\ implast' \in BOOLEAN
+             /\ declared' = (IF implast' THEN {} ELSE declared)        \* a library imported last is not visible to the entry file
+             /\ UNCHANGED <<prog, open, done>>
+
+Next == \/ SplitHere
+        \/ \E ins \in SimpleMenu : AppendSimple(ins)
         \/ \E ins \in BlockMenu : OpenBlock(ins)
         \/ CloseBlock \/ Finish
 
@@ -231,14 +247,40 @@ Spec == Init /\ [][Next]_vars
 Closable == Len(prog) - Len(Prelude) + Len(open) <= MaxLen
 
 ----------------------------------------------------------------------------
+\* The program that is evaluated: with the import first it is prog itself (imports are inlined);
+\* with the import last the entry file's instructions run first.
+NMain == Len(prog) - split
+Lib == SubSeq(prog, 1, split)
+Main == SubSeq(prog, split + 1, Len(prog))
+EvalProg == IF split > 0 /\ implast THEN Main \o Lib ELSE prog
+\* position (file, line in the SCSS / indented rendering) of instruction i of EvalProg
+InLib(i) == IF split = 0 THEN FALSE ELSE IF implast THEN i > NMain ELSE i <= split
+FileOf(i) == IF InLib(i) THEN "_lib.scss" ELSE "stdin"
+ScssLineOf(i) == IF split = 0 THEN i
+                 ELSE IF implast THEN (IF i > NMain THEN i - NMain ELSE i)
+                 ELSE (IF i <= split THEN i ELSE i - split + 1)
+SassLineOfI(i) == IF split = 0 THEN SassLineOf(prog, i)
+                  ELSE IF implast THEN (IF i > NMain THEN SassLineOf(Lib, i - NMain) ELSE SassLineOf(Main, i))
+                  ELSE (IF i <= split THEN SassLineOf(Lib, i) ELSE SassLineOf(Main, i - split) + 1)
 Obs(p, o) == IF o.k = "decl" THEN <<"decl", o.sel, o.prop, o.val>>
-             ELSE <<o.k, o.msg, o.at, SassLineOf(p, o.at)>>
+             ELSE <<o.k, o.msg, ScssLineOf(o.at), SassLineOfI(o.at), FileOf(o.at)>>
 
 EmitCase ==
   done =>
-    LET s == Run(prog, Fuel)
+    LET s == Run(EvalProg, Fuel)
         k == IF s.unk THEN "unknown" ELSE IF s.err THEN "error" ELSE "ok"
+        imp == "@import \"lib\""
     IN /\ (k = "ok" => (s.env = <<1>> /\ s.semi /\ s.sel = "" /\ s.ret = NoRet))      \* scope balance
-       /\ PrintT(<<"CASE", ToJson([scss |-> ScssLines(prog), sass |-> SassLines(prog), k |-> k,
+       /\ PrintT(<<"CASE", ToJson([scss |-> IF split = 0 THEN ScssLines(prog)
+                                            ELSE IF implast THEN ScssLines(Main) \o <<imp \o ";">>
+                                            ELSE <<imp \o ";">> \o ScssLines(Main),
+                                   sass |-> IF split = 0 THEN SassLines(prog)
+                                            ELSE IF implast THEN SassLines(Main) \o <<imp>>
+                                            ELSE <<imp>> \o SassLines(Main),
+                                   lib |-> IF split = 0 THEN <<>> ELSE ScssLines(Lib),
+                                   k |-> k,
+                                   log |-> [i \in 1..Len(s.out) |-> Obs(prog, s.out[i])],      \* also what precedes an error
+                                   einfo |-> IF s.einfo.at = 0 THEN <<>>
+                                             ELSE <<s.einfo.msg, ScssLineOf(s.einfo.at), FileOf(s.einfo.at)>>,
                                    out |-> IF k = "ok" THEN [i \in 1..Len(s.out) |-> Obs(prog, s.out[i])] ELSE <<>>])>>)
 =============================================================================
